@@ -118,7 +118,8 @@ def run(rep):
     rep.check(len(struct_ts) == 1, 'C04.R1.struct', 'resource-struct', where, f'{len(struct_ts)} resource struct templates', ok_detail='one')
     kinds1 = None
     if struct_ts:
-        nm = ident_fmt(list(E.holes(struct_ts[0]).values())[0])
+        nm_t = hole_by_regex(struct_ts[0], r"pub struct #(\w+) <'a > \{")
+        nm = ident_fmt(nm_t) if nm_t is not None else None
         rep.check(nm == ('BindGroupLayout', G), 'C04.R4.names', 'resource-struct-name', where, f'resource struct is named {nm}', ok_detail='BindGroupLayout<N>')
     if rs is not None:
         be = ('elem', rs[2], rs[1])
@@ -204,10 +205,12 @@ def run(rep):
             h = hole_after_seq(it, anchor)
             return ident_fmt(h) if h is not None else None
         rep.check(nm('impl') == ('BindGroup', G), 'C04.R4.names', 'impl-name', where, f'impl block is for {nm("impl")}', ok_detail='impl BindGroup<N>')
-        uses = [ident_fmt(it2[2]) for it2 in it[2] if it2[0] == 'hole' and ident_fmt(it2[2]) and ident_fmt(it2[2])[0] == 'LAYOUT_DESCRIPTOR']
-        rep.check(len(uses) == 2 and all(u == ('LAYOUT_DESCRIPTOR', G) for u in uses) and txt.count('create_bind_group_layout ( & #') == 2, 'C04.R4.names', 'descriptor-uses', where,
+        hs_it = E.holes(it)
+        uses = [ident_fmt(hs_it[h_]) if h_ in hs_it else None for h_ in _re.findall(r'create_bind_group_layout \( & #(\w+) \)', txt)]
+        rep.check(len(uses) == 2 and all(u == ('LAYOUT_DESCRIPTOR', G) for u in uses), 'C04.R4.names', 'descriptor-uses', where,
                   f'get_bind_group_layout / from_bindings use descriptors {uses}', ok_detail='both use LAYOUT_DESCRIPTOR<N>')
-        dn = ident_fmt(list(E.holes(dt).values())[0])
+        dn_t = hole_by_regex(dt, r'const #(\w+) : wgpu :: BindGroupLayoutDescriptor =')
+        dn = ident_fmt(dn_t) if dn_t is not None else None
         rep.check(dn == ('LAYOUT_DESCRIPTOR', G), 'C04.R4.names', 'descriptor-name', where, f'descriptor constant is named {dn}', ok_detail='const LAYOUT_DESCRIPTOR<N>')
         bl = hole_after_seq(it, 'bindings :')
         rep.check(bl is not None and ident_fmt(bl) == ('BindGroupLayout', G), 'C04.R4.names', 'from-bindings-param', where, f'from_bindings takes {ident_fmt(bl) if bl else None}', ok_detail='bindings: BindGroupLayout<N>')
@@ -334,6 +337,15 @@ def contains(term, sub):
 
 def seq_holes(t):
     return [it for it in t[2] if it[0] == 'hole']
+
+
+def hole_by_regex(t, regex):
+    """term of the hole whose name is captured by group 1 of `regex` on the template's text (None if no match)"""
+    m = _re.search(regex, E.tmpl_text(t))
+    if not m:
+        return None
+    hs = E.holes(t)
+    return hs.get(m.group(1), hs.get('*' + m.group(1)))
 
 
 def hole_after_seq(t, anchor):
